@@ -12,7 +12,12 @@
    proves: CallX/SlotComposeFinal.v), and the codes are laid out in L as flatten_subroutines does
    ([unit_placed]), then the linked program L, run with a call stack and no oracle at all
    (Comp/LinkedSem.v), computes [denote_k]: induction on n, [link_star] at every level. Any call graph
-   (also recursive ones: [call_k] is defined by recursion on the depth, not on the graph). *)
+   (also recursive ones: [call_k] is defined by recursion on the depth, not on the graph).
+
+   Everything is parametric in an oracle transformer [W sub] per routine: the oracle the routine's SOURCE
+   is evaluated with is [W sub orc] when its CODE runs with [orc].  W = identity: the code is the
+   routine's own code.  For a routine whose re-entrant calls are wrapped in spill code W is the
+   wrapping of Proofs/CallComposeSpill.v (a wrapped call = the outcome of the spill segment). *)
 From Coq Require Import List Arith NArith String Bool Lia.
 From PV Require Import Base.Bytes AVM.Syntax AVM.Machine Src.Expr Src.Denote Src.DenoteCall
   Comp.Blocks Comp.Lower Comp.Passes Comp.GraphSem Comp.LinearSem Comp.LinkedSem Comp.Compile
@@ -69,6 +74,8 @@ Section Compose.
   Variable look : N -> N.                       (* the slot assignment *)
   Variable msel : list (string * bytes).
   Variable subs : list routine.                 (* the program's subroutines *)
+  (* per routine: the oracle its source sees, given the oracle its code runs with *)
+  Variable W : option routine -> (N -> list value -> mstate -> callres) -> (N -> list value -> mstate -> callres).
 
   (* the environment in which routine [sub] is evaluated, calls answered by [orc] *)
   Definition envk (sub : option routine) (orc : N -> list value -> mstate -> callres) : denv :=
@@ -91,7 +98,7 @@ Section Compose.
         match find_routine subs f with
         | None => CNone
         | Some r =>
-            match denote (envk (Some r) (call_k m)) m (root_ast (decl_body o r)) stk st with
+            match denote (envk (Some r) (W (Some r) (call_k m))) m (root_ast (decl_body o r)) stk st with
             | DRet s' st' => CRet s' st'
             | DExit v st' => CExit v st'
             | DFail => CFail
@@ -102,13 +109,13 @@ Section Compose.
 
   (* the source semantics of a routine body with calls *)
   Definition denote_k (n : nat) (sub : option routine) (fuel : nat) (e : expr) (stk : list value) (st : mstate) : dout :=
-    denote (envk sub (call_k n)) fuel e stk st.
+    denote (envk sub (W sub (call_k n))) fuel e stk st.
 
   (* ---- what is assumed of one compiled routine ---- *)
   (* the one-routine end-to-end statement, for every oracle *)
   Definition unit_correct (sub : option routine) (ast0 : expr) (code : list comp) : Prop :=
     forall orc fuel stk st h,
-      halt_of (denote (envk sub orc) fuel (root_ast ast0) stk st) = Some h ->
+      halt_of (denote (envk sub (W sub orc)) fuel (root_ast ast0) stk st) = Some h ->
       CallX.LinearSem.lstar (envk sub orc) code (LAt 0 stk st) h.
 
   Variable L : list comp.                       (* the linked program *)
@@ -146,17 +153,17 @@ Section Compose.
     assert (HR : realizes (old_env xe) L res (e_call xe)).
     { intros f' stk' st' NC'. destruct (IH f' stk' st' NC') as (e' & Ee' & Run'). exists e'. split; [exact Ee'|].
       intros fr' ret'. eapply pstar_irrel; [| | |exact (Run' fr' ret')]; reflexivity. }
-    destruct (denote xe m (root_ast (decl_body o r)) stk st) as [| | |s' st'|v st'| | | |] eqn:D;
+    destruct (denote (envk (Some r) (W (Some r) (call_k m))) m (root_ast (decl_body o r)) stk st) as [| | |s' st'|v st'| | | |] eqn:D;
       try (exfalso; apply NC; reflexivity).
-    - pose proof (UC (call_k m) m stk st (LRet s' st')) as Run. fold xe in Run. rewrite D in Run. specialize (Run eq_refl).
+    - pose proof (UC (call_k m) m stk st (LRet s' st')) as Run. rewrite D in Run. specialize (Run eq_refl). fold xe in Run.
       pose proof (link_star xe L (S e) res pre code Pl Lk HN HR (ret :: fr) _ _ Run Logic.I) as PR.
       cbn [emb call_image] in PR |- *. rewrite Nat.add_0_r in PR.
       eapply pstar_irrel; [| | |exact PR]; reflexivity.
-    - pose proof (UC (call_k m) m stk st (LExit v st')) as Run. fold xe in Run. rewrite D in Run. specialize (Run eq_refl).
+    - pose proof (UC (call_k m) m stk st (LExit v st')) as Run. rewrite D in Run. specialize (Run eq_refl). fold xe in Run.
       pose proof (link_star xe L (S e) res pre code Pl Lk HN HR (ret :: fr) _ _ Run Logic.I) as PR.
       cbn [emb call_image] in PR |- *. rewrite Nat.add_0_r in PR.
       eapply pstar_irrel; [| | |exact PR]; reflexivity.
-    - pose proof (UC (call_k m) m stk st LFail) as Run. fold xe in Run. rewrite D in Run. specialize (Run eq_refl).
+    - pose proof (UC (call_k m) m stk st LFail) as Run. rewrite D in Run. specialize (Run eq_refl). fold xe in Run.
       pose proof (link_star xe L (S e) res pre code Pl Lk HN HR (ret :: fr) _ _ Run Logic.I) as PR.
       cbn [emb call_image] in PR |- *. rewrite Nat.add_0_r in PR.
       eapply pstar_irrel; [| | |exact PR]; reflexivity.
